@@ -350,6 +350,7 @@ Loop:
 		switch c {
 		case ' ':
 		case '\n':
+		case '\r':
 		case '\t':
 			continue
 		case '[':
@@ -823,7 +824,7 @@ func (p Patch) ApplyIndent(doc []byte, indent string) ([]byte, error) {
 	}
 
 	var pd container
-	if doc[0] == '[' {
+	if isArray(doc) {
 		pd = &partialArray{}
 	} else {
 		pd = &partialDoc{}
